@@ -10,7 +10,10 @@ of the pieces to add up to the total, the splitting must be a partition:
   G2  KhHomology::into_bigraded builds the piece (i, j) from the table entry of the *same* key: (rank, tors, indices) in
       that order, generators and coordinate map of H_i with i the first key component; a missing key is the zero summand;
   G3  range_of is (min, max) of the keys (so no populated bidegree falls outside the generated support);
-  G4  gen_grid puts x in piece (i, j) iff x is a raw generator of C_i and q_deg(x) == j.
+  G4  gen_grid puts x in piece (i, j) iff x is a raw generator of C_i and q_deg(x) == j;
+  G5  the support of gen_grid is h_range x q_range with h_range = range_of(support) and q_range = range_of of the
+      q-degrees of *all* generators of *all* supported summands (a range taken from a subset of the summands lets
+      whole q-rows vanish without any panic: the differential preserves q).
 The unit tests compare both routes on a few knots at (h, t) = 0; a generator dropped or double-filed in a bidegree that
 those knots do not populate is invisible. NOT decided: that generators are q-homogeneous, the universal-coefficient
 arithmetic between the rings (run-time values), the F2 reduced/unreduced relation.
@@ -56,7 +59,14 @@ def closures_of(facts, owner):
     return {k: b for k, b in facts.bodies.items() if k.startswith(owner + '::{closure')}
 
 
-def run(facts, rep):
+def run(facts, rep, parts=('G1', 'G2', 'G3', 'G4', 'G5')):
+    if 'G1' in parts:
+        _g12(facts, rep)
+    if 'G3' in parts:
+        _g34(facts, rep)
+
+
+def _g12(facts, rep):
     cg = facts.bodies.get(CGI)
     if cg is None:
         rep.indet('E23: collect_gen_info not found')
@@ -150,6 +160,9 @@ def run(facts, rep):
         rep.indet('E23.G2: no closure of into_bigraded looks the table up')
     else:
         rep.violation('E23.G2-piece-from-same-key', inst, 'the bigraded piece is assembled as %s' % sorted(x[0][:260] for x in norm - want), where=hb.where())
+
+
+def _g34(facts, rep):
     # ---- G3
     rc = closures_of(facts, RNG)
     got = set()
@@ -202,3 +215,55 @@ def run(facts, rep):
         rep.indet('E23.G4: gen_grid outside the recognised fragment (piece %s, predicate %s)' % (piece, pred))
     else:
         rep.violation('E23.G4-complex-pieces', inst, 'the piece is %s with predicate %s' % (piece[:200], pred), where=gg.where())
+    check_support(facts, rep)
+
+
+def check_support(facts, rep):
+    """G5"""
+    K = 'yui_kh::kh::complex::KhComplex::<R>::'
+    need = {n: facts.bodies.get(K + n) for n in ('h_range', 'q_range', 'gen_grid')}
+    if any(v is None for v in need.values()):
+        rep.indet('E23.G5: KhComplex::{h_range, q_range, gen_grid} not found')
+        return
+    for v in need.values():
+        rep.saw(v)
+
+    def rets(b):
+        return [re.sub(r' as \{closure@[^}]*\}', '', re.sub(r'\^_ref__', '^', sk(p.ret))).replace('(closure<{closure#0}>)', 'closure<{closure#0}>') for p in SymEx(b).run() if p.end == 'return']
+    h = rets(need['h_range'])
+    q = rets(need['q_range'])
+    inner = mapf = None
+    for k, b in facts.bodies.items():
+        if k == K + 'q_range::{closure#0}':
+            inner = rets(b)
+        if k == K + 'q_range::{closure#0}::{closure#0}':
+            mapf = rets(b)
+    inst = 'KhComplex::q_range|min..max of the q-degrees of every generator of every supported summand'
+    ok = (h == ['range_of(support(arg1))'] and q == ['range_of(flat_map(support(arg1), closure<{closure#0}>))'] and
+          inner == ['map(iter(raw_gens(index(*arg1.^self, arg2))), closure<{closure#0}>)'] and mapf == ['q_deg(arg2)'])
+    if ok:
+        rep.ok('E23.G5-support-covers-all', inst, 'range_of(support().flat_map(|i| self[i].raw_gens().map(q_deg)))')
+    else:
+        src = re.match(r'range_of\(flat_map\((.*), closure<\{closure#0\}>\)\)$', q[0]) if len(q) == 1 else None
+        if src and src.group(1) != 'support(arg1)' and inner == ['map(iter(raw_gens(index(*arg1.^self, arg2))), closure<{closure#0}>)']:
+            rep.violation('E23.G5-support-covers-all', inst,
+                          'q_range scans the summands %s instead of every supported degree: generators of the other summands whose q-degree lies outside fall into no cell of gen_grid and their whole q-row disappears from the bigraded complex' % src.group(1)[:120],
+                          where=need['q_range'].where())
+        else:
+            rep.indet('E23.G5: q_range / h_range outside the recognised fragment: %s / %s / %s / %s' % (h, q, inner, mapf))
+        return
+    g = rets(need['gen_grid'])
+    inst = 'KhComplex::gen_grid|support = h_range x q_range (step 2)'
+    cl2 = None
+    for k, b in facts.bodies.items():
+        if k == K + 'gen_grid::{closure#2}':
+            cl2 = rets(b)
+    stepped = False
+    for p in SymEx(need['gen_grid']).run():
+        for e in p.calls():
+            if e.name.split('::')[-1] == 'step_by' and [sk(a) for a in e.args] == ['q_range(arg1)', '2']:
+                stepped = True
+    if g == ['generate(map(flat_map(h_range(arg1), closure<{closure#2}>), closure<{closure#0}>), closure<{closure#1}>)'] and cl2 == ['map(clone(*arg1.^q_range), closure<{closure#0}>)'] and stepped:
+        rep.ok('E23.G5-support-covers-all', inst, 'cartesian!(h_range, q_range.step_by(2))')
+    else:
+        rep.indet('E23.G5: gen_grid support outside the recognised fragment: %s / %s / step_by(q_range, 2): %s' % (g, cl2, stepped))
